@@ -9,6 +9,7 @@ package dnsforward
 // log sink.
 
 import (
+	"github.com/AdguardTeam/golibs/hostsfile"
 	"syscall"
 	"errors"
 	"slices"
@@ -139,6 +140,8 @@ type vkClient struct {
 
 // vkConf is a whole generated server configuration.
 type vkConf struct {
+	// EtcHosts, when not nil, is the hosts container of the filter (C06).
+	EtcHosts    hostsfile.Storage
 	Lists       []vkList
 	UserRules   []string
 	Rewrites    []*filtering.LegacyRewrite
@@ -320,6 +323,7 @@ func vkStartOnce(c *vkConf) (vs *vkServer, err error) {
 		BlockedResponseTTL: 10,
 		UserRules:         c.UserRules,
 		Rewrites:          c.Rewrites,
+		EtcHosts:          c.EtcHosts,
 		BlockedServices: &filtering.BlockedServices{
 			Schedule: vkWeeklyKind(c.ServicesPauseAlways, c.ServicesFarZone),
 			IDs:      c.Services,
